@@ -1,15 +1,15 @@
 (* C13: facts about the loop model of Session/Model.v. *)
 Require Import List String Bool Arith Lia ZArith.
-Require Import AV.Mini.Syntax AV.Mini.Types AV.Mini.Eval AV.Mini.Session AV.Mini.Gen.
+Require Import AV.Mini.Syntax AV.Mini.Types AV.Mini.Eval.
 Require Import AV.Session.Model AV.Session.Growth.
 Import ListNotations.
 
 (* ------------------------------------------------------------------ one form *)
 
-(* the batch evaluator's step on the first form of a file IS step_item *)
+(* the batch evaluator's step on the first form of a file IS form_step *)
 Lemma eval_items_cons : forall F fuel s it r,
     eval_items F fuel s (it :: r) =
-    match step_item F fuel s it with
+    match form_step F fuel s it with
     | Some s' => eval_items F fuel s' r
     | None => eval_items F fuel s [it]
     end.
@@ -21,9 +21,9 @@ Proof.
   - destruct (eval_stmt F fuel (with_frame s []) st); reflexivity.
 Qed.
 
-(* ... and when step_item has no next state the batch run does not end normally either *)
+(* ... and when form_step has no next state the batch run does not end normally either *)
 Lemma eval_items_stop : forall F fuel s it out,
-    step_item F fuel s it = None -> eval_items F fuel s [it] <> Done out StOk.
+    form_step F fuel s it = None -> eval_items F fuel s [it] <> Done out StOk.
 Proof.
   intros F fuel s it out H. destruct it as [t e | t e | fd | st]; simpl in *.
   - destruct (eval_expr F fuel (with_frame s []) e); try discriminate H; discriminate.
@@ -35,7 +35,7 @@ Qed.
 Lemma loop_step_accepted : forall F fuel x it,
     accepts (l_acc x) it = true ->
     loop_step F fuel x it =
-    match step_item F fuel (l_st x) it with
+    match form_step F fuel (l_st x) it with
     | Some s' => Some (mkLoop (l_acc x ++ [it]) s')
     | None => None
     end.
@@ -58,7 +58,7 @@ Proof.
     + intros (x' & Hs & Ht). inversion Hs; subst x'. unfold transcript in Ht. rewrite Ht. reflexivity.
   - destruct Hacc as [Hit Hr]. rewrite eval_items_cons. simpl session.
     rewrite (loop_step_accepted F fuel x it Hit).
-    destruct (step_item F fuel (l_st x) it) as [s' |] eqn:Est.
+    destruct (form_step F fuel (l_st x) it) as [s' |] eqn:Est.
     + apply (IH (mkLoop (l_acc x ++ [it]) s') out). exact Hr.
     + split.
       * intros H. exfalso. exact (eval_items_stop F fuel (l_st x) it out Est H).
@@ -80,24 +80,6 @@ Lemma session_eq_batch_lemma : forall fuel p out,
 Proof.
   intros fuel p out H. unfold eval. apply (session_eq_batch_items (funs_of p) fuel p loop0 out). exact H.
 Qed.
-
-(* the per-form outputs of the session are those of AV.Mini.Session.eval_forms (what the tool's
-   `forms` command prints as expect_out per form)                                            *)
-Lemma session_outputs_forms_items : forall F fuel l x,
-    accepted_in_order (l_acc x) l ->
-    session_outputs F fuel x l = eval_forms F fuel (l_st x) l.
-Proof.
-  intros F fuel l. induction l as [| it r IH]; intros x Hacc.
-  - reflexivity.
-  - destruct Hacc as [Hit Hr]. simpl. rewrite (loop_step_accepted F fuel x it Hit).
-    destruct (step_item F fuel (l_st x) it) as [s' |]; [| reflexivity].
-    rewrite (IH (mkLoop (l_acc x ++ [it]) s') Hr). reflexivity.
-Qed.
-
-Lemma session_outputs_forms_lemma : forall fuel p,
-    accepted_in_order [] p ->
-    session_outputs (funs_of p) fuel loop0 p = forms_outputs fuel p.
-Proof. intros fuel p H. exact (session_outputs_forms_items (funs_of p) fuel p loop0 H). Qed.
 
 (* session_outputs is defined exactly when the session is *)
 Lemma session_outputs_defined : forall F fuel l x,
@@ -136,8 +118,8 @@ Proof.
     intros b' Hb'. apply Hrej. right. exact Hb'.
 Qed.
 
-Lemma delta_same : forall s, delta s s = ""%string.
-Proof. intros s. unfold delta. rewrite Nat.sub_diag. reflexivity. Qed.
+Lemma printed_same : forall s, printed_between s s = ""%string.
+Proof. intros s. unfold printed_between. rewrite Nat.sub_diag. reflexivity. Qed.
 
 (* form by form: the good forms print what they print without the rejected ones, each rejected
    form prints nothing                                                                       *)
@@ -161,7 +143,7 @@ Proof.
     { apply (Hrej b (or_introl eq_refl)). apply reach_head. }
     rewrite (loop_step_rejected F fuel x b Hb) in Hol.
     destruct (session_outputs F fuel x l) as [o |] eqn:Eo; [| discriminate Hol].
-    inversion Hol; subst ol. rewrite delta_same.
+    inversion Hol; subst ol. rewrite printed_same.
     destruct (IH x) with (ol := o) as (og & Hog & Hi).
     + intros b' Hb'. apply Hrej. right. exact Hb'.
     + exact Eo.
@@ -196,8 +178,8 @@ Proof. intros F fuel x b rest H. simpl. rewrite (loop_step_rejected F fuel x b H
 Lemma loop_step_ext : forall F fuel x it x', loop_step F fuel x it = Some x' -> ext (l_st x) (l_st x').
 Proof.
   intros F fuel x it x' H. unfold loop_step in H. destruct (accepts (l_acc x) it).
-  - destruct (step_item F fuel (l_st x) it) as [s' |] eqn:Est; [| discriminate H].
-    inversion H; subst x'. simpl. exact (step_item_ext F fuel (l_st x) it s' Est).
+  - destruct (form_step F fuel (l_st x) it) as [s' |] eqn:Est; [| discriminate H].
+    inversion H; subst x'. simpl. exact (form_step_ext F fuel (l_st x) it s' Est).
   - inversion H; subst x'. apply ext_refl.
 Qed.
 
@@ -214,24 +196,12 @@ Proof.
     destruct (session_outputs F fuel x1 r) as [o |] eqn:Eo; [| discriminate H].
     inversion H; subst outs. destruct (IH x1 o Eo) as (x' & Hs & Ht).
     exists x'. split; [exact Hs |]. rewrite Ht. unfold transcript at 1.
-    rewrite (output_of_delta (l_st x) (l_st x1) (loop_step_ext F fuel x it x1 Est)).
+    rewrite (output_of_printed (l_st x) (l_st x1) (loop_step_ext F fuel x it x1 Est)).
     rewrite concat_cons. unfold transcript. rewrite sapp_assoc. reflexivity.
 Qed.
 
 Lemma transcript_loop0 : transcript loop0 = ""%string.
 Proof. reflexivity. Qed.
-
-(* forms fed one by one print, form by form, pieces whose concatenation is the batch output *)
-Lemma forms_outputs_batch_lemma : forall fuel p outs,
-    accepted_in_order [] p ->
-    forms_outputs fuel p = Some outs ->
-    eval fuel p = Done (String.concat "" outs) StOk.
-Proof.
-  intros fuel p outs Hacc H. rewrite <- (session_outputs_forms_lemma fuel p Hacc) in H.
-  destruct (session_transcript_lemma (funs_of p) fuel p loop0 outs H) as (x' & Hs & Ht).
-  apply (session_eq_batch_lemma fuel p (String.concat "" outs) Hacc).
-  exists x'. split; [exact Hs |]. rewrite Ht. reflexivity.
-Qed.
 
 (* the second sentence of the property at the level of the whole transcript: an interleaved
    session prints exactly the concatenation of what the good forms print on their own       *)
@@ -302,10 +272,3 @@ Example ex_rejected_definition_leaves_no_binding :
   option_map (fun x => List.length (l_acc x))
              (session (funs_of ex_goods) ex_fuel loop0 ex_session) = Some 4.
 Proof. vm_compute. reflexivity. Qed.
-
-(* the hypothesis "every form is accepted when it is entered" holds for programs of the generated
-   family (two of them, by computation; the runs measure it on every program they feed)        *)
-Example ex_gen_accepted_7_6 : accepted_in_order [] (AV.Mini.Gen.gen 7 6).
-Proof. apply accepted_in_orderb_spec. vm_compute. reflexivity. Qed.
-Example ex_gen_accepted_1_12 : accepted_in_order [] (AV.Mini.Gen.gen 1 12).
-Proof. apply accepted_in_orderb_spec. vm_compute. reflexivity. Qed.
